@@ -143,6 +143,10 @@ class ShardsList(BaseModel):
         if ".." in v.parts:
             raise ValueError("A .. is present in the path which could allow "
                              "directory traversal above `dataset_root_path`.")
+        if v.is_absolute():
+            raise ValueError("The path must be relative to the dataset root "
+                             "directory, an absolute path would replace "
+                             "`dataset_root_path` when joined with it.")
         return v
 
     def write_config(self, dataset_root_path: Path,
